@@ -43,6 +43,9 @@ def helpers(ctx, rep):
         return
     rep.fn(w.name)
     rep.fn(p.name)
+    from mirq import expand_adaptors
+    w = expand_adaptors(w)          # `.map_err(..)?` and `match` spell the same control flow
+    p = expand_adaptors(p)
     tf = w.calls_to(r"convert::TryFrom::try_from$")
     ok = len(tf) == 1
     detail = "expected one T::try_from call (found %d)" % len(tf)
@@ -58,11 +61,14 @@ def helpers(ctx, rep):
         okm = False
         if sw:
             ok_t, err_t = sw[1].get(0), sw[1].get(1, sw[2])
-            wr = [bb for bb, t in w.calls_to(r"BinWrite::write_options$") if bb in w.reach(ok_t)]
-            okm = len(wr) == 1 and not [bb for bb, t in w.calls_to(r"BinWrite::write_options$") if bb in w.reach(err_t) and bb not in w.reach(ok_t)] and "Err" in w.ret_kinds(err_t)
+            after_ok = w.reach_v(via=ok_t)
+            after_err = w.reach_v(via=err_t)
+            wr = [bb for bb, t in w.calls_to(r"BinWrite::write_options$") if bb in after_ok]
+            kinds_err = w.ret_kinds_v(err_t)
+            okm = len(wr) == 1 and not [bb for bb, t in w.calls_to(r"BinWrite::write_options$") if bb in after_err] and bool(kinds_err) and kinds_err <= {"Err", "residual"}
             if wr:
                 vo = w.origin(w.blocks[wr[0]]["term"]["args"][0])
-                okm = okm and "Ok" in str(vo) and any(c[4] == tf[0][0] for c in origin_calls(vo))
+                okm = okm and any(c[4] == tf[0][0] for c in w.may_calls(vo))
         rep.check("R15.1", "write:err-is-error", okm, "a value that does not fit T must become an error and only the Ok payload may be written", w.loc())
     ti = p.calls_to(r"convert::TryInto::try_into$")
     fm = p.calls_to(r"Duration::from_millis$")
@@ -73,7 +79,7 @@ def helpers(ctx, rep):
         x = o
         if x[0] == "field":
             x = x[1]
-        ok = x[0] == "bin" and x[1] in ("MulWithOverflow", "Mul") and x[3][0] == "const" and x[3][2] == "SCALE" and any(c[4] == ti[0][0] for c in origin_calls(x[2]))
+        ok = x[0] == "bin" and x[1] in ("MulWithOverflow", "Mul") and x[3][0] == "const" and x[3][2] == "SCALE" and any(c[4] == ti[0][0] for c in p.may_calls(x[2]))
         ga = callee(ti[0][1])[2]
         ok = ok and len(ga) >= 2 and ga[1] == "u64"
         detail = "the parser must compute from_millis(try_into::<u64>(raw)? * SCALE); found %s" % fmt_origin(o)
